@@ -4,7 +4,7 @@ from sfv import STDLIB_AXIOMS_ALLOWED
 
 THEOREMS = {
     "C01": ["C01_roundtrip_seq", "C01_roundtrip_index", "C01_same_type", "C01_xyz_bit_identical", "C01_measures", "C01_measure_rule",
-            "C01_kinds_and_box", "C01_roles"],
+            "C01_kinds_and_box", "C01_roles", "C01_roles_kept"],
     "C02": ["C02_record", "C02_emits_spec", "C02_conformant", "C02_geometry_recovered"],
     "C04": ["C04_shx_layout", "C04_entries", "C04_entries_address_records", "C04_reader", "C04_hint_and_count"],
     "C14": ["C14_index_governs", "C14_iteration_is_index_order", "C14_nth_agrees"],
@@ -17,7 +17,8 @@ THEOREMS = {
             "C13_short_reads"],
     "C12": ["C12_fault_surfaces", "C12_finalize_any", "C12_retry", "C12_reachable", "C12_drop", "C12_chunking"],
     "C11": ["C11_crash_states", "C11_read_any_header", "C11_crash_prefix", "C11_torn_length_monotone"],
-    "C16": ["C16_rings", "C16_vertices", "C16_closed", "C16_orientation", "C16_idempotent", "C16_multipatch"],
+    "C16": ["C16_rings", "C16_vertices", "C16_closed", "C16_orientation", "C16_idempotent", "C16_multipatch",
+            "C16_test_is_exact_sign", "C16_area_of_reverse", "C16_orientation_exact", "C16_idempotent_exact"],
     "C17": ["C17_requests", "C17_index_requests", "C17_record_requests"],
     "C08": ["C08_rejected_call", "C08_history", "C08_pairs", "C08_pairs_spec"],
     "C20": ["C20_to_geo", "C20_polygon_grouping", "C20_back", "C20_from_geo", "C20_refusals", "C20_dims"],
@@ -33,7 +34,8 @@ THEOREMS = {
 # theorems whose statement mentions the orientation test (Flocq binary64 arithmetic) inherit the four
 # classical-reals axioms of the standard library through Flocq's definitions
 FLOCQ = set(STDLIB_AXIOMS_ALLOWED)
-AXIOMS = {"C20_to_geo": FLOCQ, "C20_polygon_grouping": FLOCQ, "C20_back": FLOCQ, "C20_from_geo": FLOCQ, "C20_refusals": FLOCQ,
+AXIOMS = {"C16_test_is_exact_sign": FLOCQ, "C16_orientation_exact": FLOCQ, "C16_idempotent_exact": FLOCQ, "C01_roles_kept": FLOCQ,
+          "C20_to_geo": FLOCQ, "C20_polygon_grouping": FLOCQ, "C20_back": FLOCQ, "C20_from_geo": FLOCQ, "C20_refusals": FLOCQ,
           "C20_dims": FLOCQ,
           "C08_pairs": FLOCQ,
           "C17_requests": FLOCQ, "C17_index_requests": FLOCQ, "C17_record_requests": FLOCQ,
